@@ -215,7 +215,9 @@ func suiteC09(c *Ctx) {
 		var mu sync.Mutex
 		ptrs := map[string]map[interface{}]bool{}
 		stop := make(chan struct{})
+		passesDone := make(chan struct{})
 		go func() {
+			defer close(passesDone)
 			for {
 				select {
 				case <-stop:
@@ -251,7 +253,9 @@ func suiteC09(c *Ctx) {
 		}
 		wg.Wait()
 		close(stop)
-		time.Sleep(200 * time.Microsecond)
+		// the background pass may be between taking a counter's delta and handing it to the reporter: wait for the
+		// goroutine itself, not for a while (a fixed 200us pause here once read the log too early on a loaded machine)
+		<-passesDone
 		tally.VerifReportOnce(w.root)
 		w.trace = []string{"stress"}
 		w.checkConservation(c, "C09", "c09-stress")
